@@ -120,10 +120,19 @@ fn cmd_worker(args: &[String]) -> i32 {
     let mut nontrivial = 0u64;
     let mut curf = cur_file.and_then(|p| std::fs::OpenOptions::new().create(true).write(true).truncate(true).open(p).ok());
     let stdout = std::io::stdout();
+    let stop_file = arg_val(args, "--stop");
     let mut i = 0u64;
     while i < count {
         if t0.elapsed().as_secs_f64() > budget_s {
             break;
+        }
+        // the parent asks for an orderly stop (a violation is already known): finish with a summary
+        if i % 32 == 0 {
+            if let Some(sf) = &stop_file {
+                if std::path::Path::new(sf).exists() {
+                    break;
+                }
+            }
         }
         let run = start + i * stride;
         if let Some(f) = curf.as_mut() {
@@ -289,13 +298,15 @@ fn cmd_check(args: &[String]) -> i32 {
         restarts: u32,
         checked: bool,
     }
+    let stop_path = scratch.join("stop");
+    let _ = std::fs::remove_file(&stop_path);
     let spawn = |w: u64, first_index: u64, count: u64, restarts: u32| -> Option<Slot> {
         let cur = scratch.join(format!("w{}.cur", w));
         let checked = matches!(std::env::var("RSIM_CHECKED_EXE"), Ok(ref p) if prop == "C04" && w % 2 == 1 && std::path::Path::new(p).exists());
         let wexe = if checked { std::path::PathBuf::from(std::env::var("RSIM_CHECKED_EXE").unwrap()) } else { exe.clone() };
         let start = w + first_index * jobs;
         let mut child = Command::new(&wexe)
-            .args(["worker", "--prop", &prop, "--seed", &seed.to_string(), "--start", &start.to_string(), "--stride", &jobs.to_string(), "--count", &count.to_string(), "--tier", &tier, "--budget", &plan.budget_s.to_string(), "--cur", cur.to_str().unwrap()])
+            .args(["worker", "--prop", &prop, "--seed", &seed.to_string(), "--start", &start.to_string(), "--stride", &jobs.to_string(), "--count", &count.to_string(), "--tier", &tier, "--budget", &plan.budget_s.to_string(), "--cur", cur.to_str().unwrap(), "--stop", stop_path.to_str().unwrap()])
             .stdout(Stdio::piped())
             .stderr(Stdio::inherit())
             .spawn()
@@ -324,6 +335,7 @@ fn cmd_check(args: &[String]) -> i32 {
     let read_cur = |p: &std::path::Path| std::fs::read(p).ok().and_then(|b| b.get(..8).map(|x| u64::from_le_bytes(x.try_into().unwrap()))).unwrap_or(u64::MAX);
     let mut first_violation_at: Option<Instant> = None;
     let mut stopped_early = false;
+    let mut killed_after_stop = false;
     while !slots.is_empty() {
         // a violation of this property has been reported by a running worker: give the batch a short grace
         // period (other signatures), then stop it - on a broken tree workers tend to crash or hang repeatedly
@@ -340,8 +352,14 @@ fn cmd_check(args: &[String]) -> i32 {
             }
         }
         if let Some(t) = first_violation_at {
-            if t.elapsed().as_secs_f64() > 8.0 && !stopped_early {
+            if t.elapsed().as_secs_f64() > 6.0 && !stopped_early {
+                // orderly stop first (workers finish their run and print their summary) ...
                 stopped_early = true;
+                let _ = std::fs::write(&stop_path, b"stop");
+            }
+            if t.elapsed().as_secs_f64() > 10.0 && !killed_after_stop {
+                // ... then whoever is still stuck in a run is killed
+                killed_after_stop = true;
                 for s in slots.iter_mut() {
                     let _ = s.child.kill();
                 }
@@ -400,7 +418,7 @@ fn cmd_check(args: &[String]) -> i32 {
                     summary = serde_json::from_str::<Value>(rest).ok();
                 }
             }
-            let died = !stopped_early && (hung || !status.success() || summary.is_none());
+            let died = !killed_after_stop && (hung || !status.success() || summary.is_none());
             if stopped_early {
                 harness_note_partial = true;
             }
@@ -428,6 +446,12 @@ fn cmd_check(args: &[String]) -> i32 {
                     if samples.len() < 3 {
                         samples.push(sm);
                     }
+                }
+            } else if progress.is_none() {
+                // the process died before its first progress report: count the runs it had announced
+                let run = read_cur(&slot.cur);
+                if run != u64::MAX && run >= slot.w {
+                    agg_runs += ((run - slot.w) / jobs + 1).saturating_sub(slot.first_index);
                 }
             } else if let Some(pj) = &progress {
                 // the process died: keep the counters of its last progress report
@@ -548,6 +572,9 @@ fn cmd_check(args: &[String]) -> i32 {
     // ---- evidence
     let wall = t0.elapsed().as_secs_f64();
     let per_hour = if wall > 0.0 { (agg_runs as f64 / wall * 3600.0) as u64 } else { 0 };
+    if samples.is_empty() {
+        samples.push(json!({"note": "no worker completed a non-trivial run before the batch was stopped", "first_violations": found.keys().take(3).collect::<Vec<_>>()}));
+    }
     let mut coverage = json!({
         "evaluations": agg_runs,
         "distinct_nontrivial": hashes.len(),
